@@ -10,6 +10,7 @@ Static clauses (DESIGN section 4, C06):
   S-GUARD  safe_apply_args returns MissingTxArg for an absent reported parameter before apply_args can run;
            resolve_tx applies arguments only through it
   T1c (tuples)  an impl of a traversal method on a tuple of IR nodes recurses with the method on every component
+  T1 (same substitution)  in apply_args / apply_inputs / apply_fees a child that reaches a traversal method reaches that very method
   F-NORM   parameter / input names put into the IR by the lowering are lower-cased
 """
 from .. import mir, e3_trav as e3
